@@ -21,7 +21,7 @@ TOL = 1e-12
 
 
 def fp_of(kind):
-    return {"1/(k+1)": lambda k: 1.0 / (k + 1), "2^-k": lambda k: 2.0 ** (-k), "const": lambda k: 0.5,
+    return {"1/(k+1)": lambda k: 1.0 / (k + 1), "2^-k": lambda k: 2.0 ** (-k), "const": lambda k: 0.5, "geo": lambda k: 2.0 ** (-(k + 1)),
             "k+1": lambda k: k + 1}[kind]
 
 
@@ -39,6 +39,10 @@ def prob_vectors(t, tier):
 
 def instances(tier, seed):
     maxhi = 6 if tier == "quick" else 7
+    # an overall-degree law that sums to 1 - 2^-21 over the range: almost, but not, normalised already
+    for t in (1, 2):
+        yield {"t": t, "probs": [str(p) for p in prob_vectors(t, tier)[1 if t == 2 else 0]], "lo": 0, "hi": 21,
+               "fp": "geo"}
     for t in range(1, 5):
         for probs in prob_vectors(t, tier):
             for lo in range(0, maxhi):
